@@ -524,6 +524,11 @@ H01(cx, s) ==
        /\ s.rep[j].c = Beh(cx.c, j, ReadOf(cx, s, j),
                            IF j \in ToSet(cx.c.flaky) THEN cx.c.evalno ELSE 0)
        /\ (cx.c.cmp = "nostamp" => s.rep[j].s = cx.c.evalno))
+(* every end of a stamped, fault-free, uninterrupted evaluation has partners in the stamp-free run
+   of the same world: otherwise the differential of C15 would be silently vacuous *)
+H03(cx, s, isStampRun, partners) ==
+  V(isStampRun /\ cx.c.fail = <<>> /\ cx.c.flaky = <<>> /\ ~s.aborted /\ ~s.aborting /\ Alive(s),
+    partners # {})
 H02(cx, pre, post, call, res, mis) ==
   V(Alive(post) /\ ~mis,
     /\ post.offered = pre.offered \cup post.ready
